@@ -1,5 +1,6 @@
 import Wl2kVerif.Ops.Basic
 import Wl2kVerif.Msg.Spec
+import Wl2kVerif.Msg.HeaderText
 /-
 Driver ops for the message model (C09). Message encoding on a line (space separated tokens,
 byte strings in hex, "-" = empty):
@@ -95,6 +96,15 @@ def ops : List (String × Handler) := [
   ("canonkey", fun a => match allBytes a with | some [s] => toHexField (canonKey s) | _ => "bad-op"),
   ("trimstr", fun a => match allBytes a with | some [s] => toHexField (trimString s) | _ => "bad-op"),
   ("msgatoi", fun a => match allBytes a with | some [s] => toString (atoi s) | _ => "bad-op"),
+  -- fbb's encodeHeaderText / WordDecoder.DecodeHeader (Msg/HeaderText.lean, the instance `goExt` of C09_ext)
+  ("hdrenc", fun a => match allBytes a with | some [s] => toHexField (Wl2k.Msg.HeaderText.encodeHeaderText s) | _ => "bad-op"),
+  ("hdrdec", fun a => match allBytes a with
+    | some [s] => let (t, e) := Wl2k.Msg.HeaderText.decodeHeader s
+                  toHexField t ++ " " ++ (if e then "err" else "nil")
+    | _ => "bad-op"),
+  ("qenc", fun a => match allBytes a with
+    | some [cs, s] => toHexField (Wl2k.Msg.HeaderText.qEncodingEncode cs s)
+    | _ => "bad-op"),
   ("addr", fun a => match allBytes a with
     | some [s] => let x := addrFromString s
                   joinSp [toHexField x.proto, toHexField x.addr, toHexField x.toBytes]
